@@ -35,13 +35,9 @@ HERE = os.path.abspath(__file__)
 PY = sys.executable
 IMPLS = ['itch', 'ouch', 'sqf']
 
-# defects of the unchanged tree (see /verif/fixes/C15-*.md); replay dicts of such violations carry exactly these keys
-KNOWN_LOCAL = [
-    {'kind': 'array-of-fixed-string'},
-    {'kind': 'html-escaped-enum-value'},
-    {'kind': 'html-escaped-default-value'},
-    {'kind': 'unescaped-quote-in-literal'},
-]
+# defects found by this check (see /verif/fixes/C15-*.md); while one is open its signature is listed here
+KNOWN_LOCAL = []      # all C15 defects are repaired in /repo (5aeb18b, 77e6d60, 6e4eeaa, 8ed2437); recorded as `fixed`
+FORMER_DEFECTS = ['array-of-fixed-string', 'html-escaped-enum-value', 'html-escaped-default-value', 'unescaped-quote-in-literal']
 
 # ------------------------------------------------------------------------------------------------ the documented datatypes
 # id -> (kind, size, signed, big-endian, iso) — read from the DATATYPES block of tools/templates/soup_app_xml.mustache
@@ -420,7 +416,7 @@ FIELD_RESERVED = set()
 
 def plain_chars(iso, edge=False):
     """characters that need no escaping; edge=True adds the ones that are legal but odd (tab, DEL, C1 controls, NBSP)"""
-    base = [c for c in (string.ascii_letters + string.digits + ' _-.@#$%^*()[]{}?/|~`+=,;:!')]
+    base = [c for c in (string.ascii_letters + string.digits + ' _-.@#$%^*()[]{}?/|~`+=,;:!&<>"\'\\')]
     if edge:
         base += ['\t', '\x7f']
     if iso:
@@ -475,7 +471,7 @@ def gen_field(rng, names, ctx_, allow_def=True, in_record=False, force=None):
         dom = ctx_['enums'][en]
     else:
         f['type'] = 'record:' + rng.choice(ctx_['records'])
-    if kind != 'fixed' and rng.random() < 0.3:
+    if rng.random() < 0.3:
         f['array'] = rng.choice(['true', 'true', 'single', '1', 'yes'])
         c = rng.random()
         f['endian'] = 'big' if c < 0.45 else ('little' if c < 0.6 else None)
@@ -540,11 +536,19 @@ def gen_wf_spec(rng, tier):
         spec['records'].append({'name': rn, 'fields': fields})
         ctx_['records'] = ctx_['records'] + [rn]
     used_ids = set()
+    used_groups = {}
     for _ in range(rng.choice([1, 1, 2, 3, 5] if tier == 'quick' else [1, 2, 3, 5, 8])):
         mname = names.fresh(rng.choice(['M', 'Order', 'm']))
         direction = rng.choice(['incoming', 'outgoing'])
+        twin = None
+        if impl == 'ouch' and spec['messages'] and rng.random() < 0.35:
+            # OUCH style: the same message id in the other direction (e.g. 'U' Replace Order in, 'U' Replaced out), same group
+            cands = [(i, g) for (i, d_), g in used_groups.items() if ((i, 'incoming' if d_ == 'outgoing' else 'outgoing') not in used_ids)]
+            if cands:
+                twin = rng.choice(cands)
+                direction = [d_ for d_ in ('incoming', 'outgoing') if (twin[0], d_) not in used_ids][0]
         while True:
-            ind = rng.randrange(256)
+            ind = rng.randrange(256) if twin is None else twin[0]
             key = (ind, direction) if impl == 'ouch' else ind
             if key not in used_ids:
                 used_ids.add(key)
@@ -553,8 +557,10 @@ def gen_wf_spec(rng, tier):
                                and not 0x80 <= ind < 0xa0 and rng.random() < 0.5) else None
         fn = FieldNames(rng)
         fields = [gen_field(rng, fn, ctx_) for _ in range(rng.choice([0, 1, 2, 3, 4, 5, 6, 1, 2, 3, 4]))]
+        group = rng.choice([None, None, 'g', '2', 'grp-1']) if twin is None else twin[1]
+        used_groups[(ind, direction)] = group
         spec['messages'].append({'name': mname, 'msgid': as_char if as_char is not None else str(ind),
-                                 'group': rng.choice([None, None, 'g', '2', 'grp-1']), 'direction': direction, 'fields': fields})
+                                 'group': group, 'direction': direction, 'fields': fields})
     return impl, spec
 
 
@@ -1428,7 +1434,7 @@ def run(ctx):
             r = json.load(open(os.path.join(cdir, f)))
             cases.append(Case(f'c{i}', r.get('class', 'wf'), r['impl'], r['spec'], r.get('override', True), r.get('kind_hint')))
     for i, (kind, impl, spec) in enumerate(lean_witnesses(ctx)):
-        cases.append(Case(f'lw{i}', 'known', impl, spec, kind=kind))
+        cases.append(Case(f'lw{i}', 'wf', impl, spec, kind=kind))
         ctx.count('lean-witness:' + kind)
     k = 0
     for _ in range(n_wf):
@@ -1437,10 +1443,10 @@ def run(ctx):
         c.prefix, c.init_file = rng.choice(['', '', 'pfx']), rng.random() < 0.3
         cases.append(c)
         k += 1
-    for sig in KNOWN_LOCAL:
+    for kind in FORMER_DEFECTS:                 # the shapes of the repaired defects, as ordinary well-formed input
         for _ in range(n_known):
-            impl, spec = gen_known_spec(rng, ctx.tier, sig['kind'])
-            cases.append(Case(f'k{k}', 'known', impl, spec, kind=sig['kind']))
+            impl, spec = gen_known_spec(rng, ctx.tier, kind)
+            cases.append(Case(f'k{k}', 'wf', impl, spec, kind=kind))
             k += 1
     for kind in MALFORMED_KINDS:
         for _ in range(n_mal):
